@@ -344,9 +344,12 @@ def main():
     c.cov["rule"] = ("(H-a) comparison chains of length 1-3 over every operator (< <= > >= == != is, is not, in, not in), constants / "
                      "quantity atoms / abs of (atom, atom+-const, const+-atom, other) / constant arithmetic on either side; "
                      "relativeHeadingRange on a 1/8-radian grid incl. arcs across the +-pi seam; erosion/dilation iteration counts "
-                     "on random boxes; (H-b) generated programs (2D containment with random sizes/orientations/offsets, "
+                     "on random boxes; maxDistanceBetween on every ordered pair of three objects with their own visibleDistance / "
+                     "cameraOffset / sizes / requireVisible / visible-from links / distance requirements; (H-b) a fixed grid (roll x "
+                     "pitch x flat/tall box; mesh-volume workspaces) plus generated programs (2D containment with random sizes/orientations/offsets, "
                      "visibility specifiers, relative-heading and distance requirements on polygonal fields) compiled with pruning "
-                     "off/on; a case is non-trivial when the matcher returns a bound / a position was conditioned and unpruned "
+                     "off/on (2D containment with roll / pitch / height as constants and distributions, rh programs with per-object "
+                     "visibleDistance and sizes, cell gaps and three observer relations, mesh-volume containers); a case is non-trivial when the matcher returns a bound / a position was conditioned and unpruned "
                      "scenes were checked against the pruned region")
     common.ensure_parser()
     if not c.proofs():
@@ -358,7 +361,7 @@ def main():
     nrh = 400 if quick else 20000
     niter = 40 if quick else 400
     nprog = 50 if quick else 1500
-    nmd = 60 if quick else 3000
+    nmd = 60 if quick else 1200
     nscenes = 50 if quick else 200
 
     # ================= H-a: matcher
